@@ -21,11 +21,11 @@ P = hs.params()
 
 MAYBE_G = '''
 start: stmt+
-stmt: "let" NAME ["=" expr] ";" | expr ";" -> es
+stmt: "let" NAME ["=" expr] ";" | sep{expr, ","} ";" -> es
 ?expr: atom | expr "+" atom -> add
 atom: NAME | NUM | "(" expr ")" | list
-list: "[" _sep{expr, ","} "]"
-_sep{x, s}: x (s x)*
+list: "[" sep{expr, ","} "]"
+sep{x, s}: x (s x)*
 NAME: /[a-z]+/
 NUM.2: /[0-9]+/
 %import common.WS_INLINE
